@@ -254,6 +254,9 @@ def run():
                 continue
             if r2['reached']:
                 c.nontriv(('spanning', s2['name'], k))
+        # ---- stores overlapping a store that is growing the map file: whatever returned Ok reads back whole (shared with C04 / C15)
+        from ..conc import growth_step_races
+        growth_step_races(c, base, nrep=1 if Q else 12)
         # ---- stress (support)
         sl = []
         for k in range(3 if Q else 30):
